@@ -951,6 +951,19 @@ def _helper_shrinks(ctx, fn, loop):
         if len(sets) == 1 and isinstance(sets[0], ast.Assign) and sets[0] in loop.body and len(sets[0].targets) == 1 \
                 and isinstance(sets[0].targets[0], ast.Name) and isinstance(sets[0].value, ast.Call):
             test = sets[0].value
+    if isinstance(test, ast.Constant) and test.value is True and ctx is not None:
+        # `while True: ...; if not any(helper(coll, i) for i in ...): break`: the loop goes on only when one of the
+        # helper calls answered true
+        for st in loop.body:
+            if isinstance(st, ast.If) and not st.orelse and len(st.body) == 1 and isinstance(st.body[0], ast.Break) \
+                    and isinstance(st.test, ast.UnaryOp) and isinstance(st.test.op, ast.Not):
+                c = st.test.operand
+                if isinstance(c, ast.Call) and isinstance(c.func, ast.Name) and c.func.id == "any" and len(c.args) == 1 \
+                        and isinstance(c.args[0], (ast.GeneratorExp, ast.ListComp)) and isinstance(c.args[0].elt, ast.Call):
+                    c = c.args[0].elt
+                if isinstance(c, ast.Call) and not any(isinstance(x, ast.Continue) for b in loop.body for x in ast.walk(b)):
+                    test = c
+                    break
     if not isinstance(test, ast.Call) or ctx is None:
         return None
     tg = [t for t in ctx.typer.of(fn).targets(test)]
@@ -1001,6 +1014,15 @@ def _helper_shrinks(ctx, fn, loop):
                     continue
                 nret += 1
                 r = [removes(b) for b in body[:i] if not isinstance(b, (ast.If, ast.For, ast.While, ast.Try))]
+                # a `try` every handler of which leaves the function with a false answer (or raises): past it, the
+                # statements of its body have all been executed
+                for b in body[:i]:
+                    if isinstance(b, ast.Try) and not b.orelse and not b.finalbody and b.handlers and all(
+                            h.body and (isinstance(h.body[-1], ast.Raise) or (
+                                isinstance(h.body[-1], ast.Return) and (h.body[-1].value is None or (
+                                    isinstance(h.body[-1].value, ast.Constant) and not h.body[-1].value.value))))
+                            for h in b.handlers):
+                        r += [removes(x) for x in b.body if not isinstance(x, (ast.If, ast.For, ast.While, ast.Try))]
                 r = [x for x in r if x]
                 if not r:
                     return None
